@@ -254,15 +254,31 @@ func expect(text []byte, srcName string) (items []item) {
 }
 
 // plainSet is a Set; handleSet adds HandleInvalid.
-type plainSet struct{ items []item }
+type plainSet struct {
+	items []item
+
+	// nested, if set, is called by Add (a destination that reads a further
+	// source while it is being filled).
+	nested func()
+}
 
 func (s *plainSet) Add(rec *hostsfile.Record) {
 	s.items = append(s.items, item{add: true, addr: rec.Addr, names: slices.Clone(rec.Names), source: rec.Source})
+	if s.nested != nil {
+		s.nested()
+	}
 }
 
-type handleSet struct{ plainSet }
+type handleSet struct {
+	plainSet
+
+	// kept are the error values as they were handed over: a handler may keep
+	// them and look at them later.
+	kept []error
+}
 
 func (s *handleSet) HandleInvalid(srcName string, data []byte, err error) {
+	s.kept = append(s.kept, err)
 	it := item{line: string(data), srcName: srcName, lineNum: -1}
 	var le *hostsfile.LineError
 	if errors.As(err, &le) {
@@ -423,16 +439,60 @@ func runParse(c *ctx) {
 	}
 	want := expect(text, srcName)
 
+	// The destination may itself parse another source from inside Add, with
+	// the same buffer argument (nil in particular).
+	var nested func()
+	if !large && tp.Bool(1, 8) {
+		rc.Stats.Probe("parse-reentered-from-add")
+		inner := []byte("10.9.8.7 nested.example nested2.example\n10.9.8.6 other.example\n")
+		nestedBuf := buf
+		if nestedBuf != nil {
+			nestedBuf = make([]byte, len(buf), cap(buf))
+		}
+		nested = func() {
+			ns := &plainSet{}
+			if nerr := hostsfile.Parse(ns, bytes.NewReader(inner), nestedBuf); nerr != nil || len(ns.items) != 2 ||
+				ns.items[0].names[0] != "nested.example" || ns.items[1].names[0] != "other.example" {
+				rc.Fail("deliveries", "Parse", fmt.Sprintf("a Parse started from inside Set.Add delivered %v (error %v)", ns.items, nerr))
+			}
+		}
+	}
 	var got []item
 	var err error
+	var kept []error
 	if useHandle {
 		hs := &handleSet{}
+		hs.nested = nested
 		err = hostsfile.Parse(hs, src, buf)
 		got = hs.items
+		kept = hs.kept
 	} else {
-		ps := &plainSet{}
+		ps := &plainSet{nested: nested}
 		err = hostsfile.Parse(ps, src, buf)
 		got = ps.items
+	}
+	if rc.Violation != nil {
+		return
+	}
+	// The error values handed to HandleInvalid, looked at again after Parse
+	// has returned: each still names its own line.
+	var keptLines, gotLines []int
+	for _, e := range kept {
+		var le *hostsfile.LineError
+		if errors.As(e, &le) {
+			keptLines = append(keptLines, le.Line)
+		}
+	}
+	for _, it := range got {
+		if !it.add && it.lineNum >= 0 {
+			gotLines = append(gotLines, it.lineNum)
+		}
+	}
+	if useHandle && !slices.Equal(keptLines, gotLines) {
+		rc.Fail("line-error-reused", "Parse", fmt.Sprintf(
+			"the errors handed to HandleInvalid named lines %v when they were delivered and name lines %v after Parse has returned", gotLines, keptLines))
+
+		return
 	}
 	for _, rcall := range sr.Calls {
 		c.sig = kernel.HashBytes(c.sig, []byte{byte(rcall.Buf), byte(rcall.N), boolByte(rcall.Err != nil)})
@@ -688,7 +748,13 @@ func runStorage(c *ctx) {
 		if len(names) == 0 {
 			rc.Stats.Probe("add-without-names")
 		}
-		s.Add(&hostsfile.Record{Addr: addr, Names: slices.Clone(names), Source: "src"})
+		given := slices.Clone(names)
+		s.Add(&hostsfile.Record{Addr: addr, Names: given, Source: "src"})
+		if !slices.Equal(given, names) {
+			rc.Fail("record-modified", "DefaultStorage.Add", fmt.Sprintf("Add changed the Names of the record it was given from %q to %q", names, given))
+
+			return
+		}
 		m.add(addr, names)
 		c.logf("Add(%s %q)", addr, names)
 		c.sig = kernel.HashBytes(c.sig, []byte(fmt.Sprint(addr, names)))
